@@ -115,6 +115,18 @@ func (fr *oFrame) builtinCall(call *ast.CallExpr) (oval, bool) {
 			return oInt(len(*m.keys)), true
 		}
 		return oTop{name + " of " + showVal(v)}, true
+	case "new":
+		t := fr.info.TypeOf(call.Args[0])
+		if t == nil {
+			return oTop{"new of unknown type"}, true
+		}
+		z := fr.it.zero(t)
+		if st, ok := z.(*oStruct); ok {
+			return oPtr{st}, true
+		}
+		cell := new(oval)
+		*cell = z
+		return oRef{cell: cell, typ: t}, true
 	case "make":
 		t := fr.info.TypeOf(call.Args[0])
 		if _, ok := t.Underlying().(*types.Map); ok {
@@ -492,4 +504,12 @@ func (fr *oFrame) mapIndex(x *ast.IndexExpr, m oMap) (oval, oval) {
 		return oTop{"map type"}, oBool(false)
 	}
 	return fr.it.zero(mt.Elem()), oBool(false)
+}
+
+// oHost is a value of a type outside the repository that the driver models itself (a
+// reflect.Type, a reflect.Value): every method call on it goes to the interpreter's stub.
+// Two host values are equal when kind and key agree.
+type oHost struct {
+	kind, key string
+	v         interface{}
 }
